@@ -510,6 +510,35 @@ func (env *Env) evalCall(t *ECall) Value {
 		}
 		env.fail("string() of %s", v.T)
 	}
+	if t.Fn == "local" && len(t.Args) == 1 {
+		// local(x): the local variable x of the function, even when a result or parameter
+		// name shadows it in the clause (e.g. an intermediate err)
+		id, ok := t.Args[0].(*EIdent)
+		if !ok || env.fr == nil {
+			env.fail("local() needs an identifier and a function context")
+		}
+		n := *env
+		n.vars = map[string]Value{}
+		for k, vv := range env.vars {
+			if k != id.Name {
+				n.vars[k] = vv
+			}
+		}
+		saved := env.fr.params
+		defer func() { env.fr.params = saved }()
+		np := map[string]Value{}
+		for k, vv := range saved {
+			if k != id.Name {
+				np[k] = vv
+			}
+		}
+		env.fr.params = np
+		v, ok := n.lookup(id.Name)
+		if !ok {
+			env.fail("no local variable %s", id.Name)
+		}
+		return v
+	}
 	switch t.Fn {
 	case "old":
 		return env.withOld().eval(t.Args[0])
